@@ -124,6 +124,7 @@ class ResponseGen:
         self.vars = variables or {}
         self.entities = {}
         self.open = set()
+        self.split_types = set()
         root = self.s.root(opdef["operation"])
         return self.obj(root, [opdef["selectionSet"]], ("root", root), top=True)
 
@@ -228,12 +229,23 @@ class ResponseGen:
                 out[key] = val
         return out
 
-    def child(self, concrete, subs, pk, forced_id=None):
-        """Object of concrete type at parent position pk -> (value, skeleton)."""
+    def child(self, concrete, subs, pk, skel=None):
+        """Object of concrete type at parent position pk -> (value, skeleton). skel: the object as it was generated at
+        another position of the same entity."""
         fields = self.collect(concrete, subs)
+        forced_id = skel["id"] if skel is not None else None
         if self.has_id(concrete, fields):
             cid = forced_id if forced_id is not None else self.new_id(concrete)
+            if skel is not None and forced_id is None:
+                # the other position did not select id (abstract parent type): there the object is keyed by its path,
+                # here by its id -- the store will hold two records for it
+                self.split_types.add(concrete)
+                self.stats["objects_keyed_by_path_at_one_position_and_by_id_at_another"] += 1
+                skel["id"] = cid
             return self.obj(concrete, subs, ("id", concrete, cid)), {"t": concrete, "id": cid}
+        if forced_id is not None:
+            self.split_types.add(concrete)
+            self.stats["objects_keyed_by_path_at_one_position_and_by_id_at_another"] += 1
         return self.obj(concrete, subs, ("path", concrete) + tuple(pk)), {"t": concrete, "id": None}
 
     def reproduce(self, skel, subs, pk):
@@ -242,7 +254,7 @@ class ResponseGen:
         if isinstance(skel, list):
             return [self.reproduce(x, subs, pk + (i,)) for i, x in enumerate(skel)]
         if isinstance(skel, dict) and "t" in skel:
-            return self.child(skel["t"], subs, pk, forced_id=skel["id"])[0]
+            return self.child(skel["t"], subs, pk, skel=skel)[0]
         return skel["v"]
 
     def complete(self, t, subs, pk, nonnull=False):
@@ -394,7 +406,7 @@ def run_runtime(c, invoke=False, want_keys=True, null_w=0.2, min_list=0, max_lis
                 g.node_type, g.node_id = parent_type, str(variables["id"])
             resp = g.operation(opdef, variables)
             gen_stats.update(g.stats)
-            lst.append({"tag": i, "variables": variables, "response": resp, "root": g.node_link})
+            lst.append({"tag": i, "variables": variables, "response": resp, "root": g.node_link, "split_types": sorted(g.split_types)})
         cases[key] = lst
         job_eps[key] = {"cases": lst, "variableNames": op_var_names(opdef)}
     poss = {}
@@ -445,7 +457,10 @@ def shape(v):
 REASON_RE = re.compile(r"^(No value for|No link for|Missing data for|No record for root) ?(.*?)(?: on root (.*?))?(?:\. Link is .*)?$", re.S)
 
 
-def classify_missing(ev, schema=None):
+SPLIT = "object-normalized-into-an-id-keyed-and-a-path-keyed-record"
+
+
+def classify_missing(ev, schema=None, split_types=()):
     """(kind, cause, key): cause names the mechanism, not the case."""
     reasons = ev.get("reasons") or []
     inner = reasons[-1] if reasons else ""
@@ -460,10 +475,10 @@ def classify_missing(ev, schema=None):
     path_keyed = bool(re.match(r"^[A-Za-z_][A-Za-z0-9_]*:.*\.", str(link.get("__link"))))
     if kind == "no-record":
         cause = "record-absent"
-    elif path_keyed and tdef is not None and "id" in tdef.get("fields", {}) and "id" not in rk:
-        # the record was written from a position whose selection did not include id (abstract parent type without id),
-        # and replaced the link written by a position that did
-        cause = "link-overwritten-by-path-keyed-record-of-a-type-with-id"
+    elif (path_keyed and tdef is not None and "id" in tdef.get("fields", {}) and "id" not in rk) or link.get("__typename") in split_types:
+        # one object of the response was written from a position whose selection did not include id (abstract parent type
+        # without id field) and from a position that did: two records, the parent's link points to the one written last
+        cause = SPLIT
     elif same_field:
         if "___null" in key and not any("___null" in x for x in same_field):
             cause = "argument-read-as-null-but-stored-with-a-value"
@@ -517,9 +532,10 @@ def analyze_c10(c, spec):
                 stats["event:%s:%s" % (ev["kind"], ev.get("response", ""))] += 1
             missing = [ev for ev in rd["events"] if ev["kind"] == "DoneReading" and ev.get("response") == "MissingData"]
             if missing:
-                kind, cause, skey = classify_missing(missing[0], rt["schema"])
+                kind, cause, skey = classify_missing(missing[0], rt["schema"], given.get("split_types") or ())
                 wit["events"] = missing[:2]
-                out["violations"].append({"rule": "missing-data", "signature": f"C10/MissingData/{kind}/{cause}",
+                sig = f"C10/MissingData/{cause}" if cause == SPLIT else f"C10/MissingData/{kind}/{cause}"
+                out["violations"].append({"rule": "missing-data", "signature": sig,
                                           "what": f"{c.cid} {key}: reading after normalizing a conforming response reports "
                                                   f"MissingData: {' <- '.join(missing[0]['reasons'][-2:])[:300]}", "witness": wit})
                 stats["reads_missing_data"] += 1
@@ -659,6 +675,14 @@ def js_int_str(n):
     return ("-" if neg else "") + r
 
 
+def js_round(v):
+    if isinstance(v, list):
+        if len(v) == 2 and v[0] == "lit" and isinstance(v[1], str) and re.match(r"^-?\d+$", v[1]) and abs(int(v[1])) > 2 ** 53 - 1:
+            return ["lit", js_int_str(int(v[1]))]
+        return [js_round(x) for x in v]
+    return v
+
+
 def key_cause(canon, want, got, escapes=None):
     """Cause of a key disagreement, confirmed against the two keys (not merely present in the argument list)."""
     got1 = got[0] if isinstance(got, list) and len(got) == 1 and isinstance(got[0], str) else None
@@ -690,6 +714,11 @@ def compare_keys(c, where, op_sels, ast_nodes, out, stats, text):
             continue
         canon = eo.canon_args_gql(s["arguments"])
         n = amap.get(("F", s["name"], json.dumps(canon)))
+        if n is None:
+            # integer literals beyond 2^53 reach us through JavaScript numbers: match the rounded form
+            n = amap.get(("F", s["name"], json.dumps(js_round(canon))))
+            if n is not None:
+                stats["ast_nodes_matched_after_js_rounding_of_big_integers"] += 1
         if n is None:
             stats["operation_fields_without_ast_node(see C11)"] += 1
             continue
